@@ -43,6 +43,11 @@ type Profile struct {
 	PDeployExpr int
 	// IgnoreCancel: percent of steps that ignore the cancel signal (forces the closure timeout path).
 	IgnoreCancel int
+	// PLiteralFalse: percent of `enabled` conditions written as a literal false spelling.
+	PLiteralFalse int
+	// ClosedOutput: add a step that waits for a slow step and an output fed by its closed.result
+	// (produced when the caller cancels while it waits).
+	ClosedOutput bool
 	// MaxDepth: nesting depth of loops (1 = loop bodies contain no loops).
 	MaxDepth int
 	// StopBeforeStart: add the shape "a step is stopped (stop_if) while it still waits for what it
@@ -297,6 +302,10 @@ func (g *genCtx) genPluginStep(id string) *Step {
 	}
 	if g.pct(g.prof.PDisabled, "enabled") {
 		s.Enabled = g.genBool()
+		if g.pct(g.prof.PLiteralFalse, "enabled_literal_false") {
+			// a YAML scalar that the bool schema reads as false (true spellings are avoided, see DESIGN §3.1)
+			s.Enabled = Lit(rapid.SampledFrom([]string{"false", "no", "off", "n", "0", "disable", "disabled", "No", "OFF"}).Draw(g.t, "false_spelling"))
+		}
 	}
 	if g.prof.Tags && len(g.prior) > 0 {
 		if g.pct(50, "tag_o") {
@@ -499,6 +508,15 @@ func GenProgram(t *rapid.T, prof *Profile, doc Doc) *Program {
 				fields = append(fields, F("pick", OneOf("which", F("opt_"+a.ID, StepRef(a.ID, "outputs", "success")), F("opt_"+b.ID, StepRef(b.ID, "outputs", "success")))))
 			}
 		}
+		if len(plug) >= 2 && g.pct(50, "optional_two_sources") {
+			// an optional whose expression reads two sources: present only if both were produced
+			a := plug[rapid.IntRange(0, len(plug)-1).Draw(t, "opt2_a")]
+			b := plug[rapid.IntRange(0, len(plug)-1).Draw(t, "opt2_b")]
+			if a != b {
+				tag := rapid.SampledFrom([]string{"wait-optional", "soft-optional"}).Draw(t, "opt2_tag")
+				fields = append(fields, F("both_"+a.ID+"_"+b.ID, Opt(tag, Op("+", StepRef(a.ID, "outputs", "success", "s"), StepRef(b.ID, "outputs", "success", "s")))))
+			}
+		}
 		for _, s := range p.Steps {
 			if s.Kind != "plugin" {
 				continue
@@ -555,6 +573,13 @@ func GenProgram(t *rapid.T, prof *Profile, doc Doc) *Program {
 		}
 		p.Outputs = append(p.Outputs, Output{ID: "fallback", E: e})
 	}
+	if nOut >= 2 && prof.FanIn == 0 && g.pct(50, "partial_output") {
+		// a second output that shares one (typically late) dependency with the main output
+		last := p.Steps[len(p.Steps)-1]
+		if last.Kind == "plugin" {
+			p.Outputs = append(p.Outputs, Output{ID: "partial", E: Obj(F("p", StepRef(last.ID, "outputs", "success", "a")))})
+		}
+	}
 	if nOut >= 3 {
 		s := p.Steps[rapid.IntRange(0, len(p.Steps)-1).Draw(t, "alt_src")]
 		if s.Kind == "plugin" {
@@ -580,6 +605,16 @@ func GenProgram(t *rapid.T, prof *Profile, doc Doc) *Program {
 		o := &p.Outputs[0]
 		o.E.Fields = append(o.E.Fields, F("z", StepRef("zslow", "outputs", "success", "a")),
 			F("victim", OneOf("how", F("ran", StepRef("xvictim", "outputs", "")), F("closed", StepRef("xvictim", "closed", "result")))))
+	}
+	if prof.ClosedOutput {
+		slow := &Step{ID: "slowsrc", Kind: "plugin", In: []Field{F("a", Lit(int64(1))), F("dur", Lit(int64(3000)))}}
+		w := &Step{ID: "waiter", Kind: "plugin", In: []Field{F("a", Lit(int64(2)))}, WaitFor: StepRef("slowsrc", "outputs", "success"), NoSignal: g.pct(50, "waiter_nosignal")}
+		if g.pct(30, "waiter_slow_deploy") {
+			w.Deploy = &Deploy{Latency: Lit(int64(500))}
+		}
+		p.Steps = append(p.Steps, slow, w)
+		p.Outputs[0].E.Fields = append(p.Outputs[0].E.Fields, F("waiter", StepRef("waiter", "outputs", "success", "a")))
+		p.Outputs = append(p.Outputs, Output{ID: "closed", E: Obj(F("c", StepRef("waiter", "closed", "result")))})
 	}
 	if prof.SoftHang {
 		p.Steps = append(p.Steps, &Step{ID: "slow", Kind: "plugin", In: []Field{F("a", Lit(int64(1))), F("mode", Lit("hang"))}})
